@@ -204,7 +204,7 @@ theorem accepted_has_no_banned (banned : List Kind) (fs : FS) (root : Nat) (fore
   obtain ⟨hs, _, hx⟩ := scanIncFileB_StAll banned fs (fun d => banned.contains d.kind = false) (fun _ h => h)
     _ _ _ _ _ _ _ hscan (StAll_init _)
   intro d hd
-  rw [mem_dirsOf, C05P.closeAll_flat _ _ hx] at hd
+  rw [mem_dirsOf, C05P.closeAll_flat _ _ (hx rfl)] at hd
   exact hs.1 d hd
 
 /-- (4, files) if a project is accepted under bans, EVERY FILE THAT IS READ — the root file and every file reached
@@ -375,6 +375,15 @@ example :
 /-- a file that is never read may contain a banned kind (`unbanned_read_same`) -/
 example : scanProjectB [.Type] [(0, .file [.dir urlD, .dir getA]), (1, .file [.dir tyD])] 0
     = .ok ([.node urlD [.node getA []]], [(2, []), (3, [])]) := by decide +kernel
+
+/-- under bans too, the unclosed-parenthesis check is made at the end of the root file only (repair of `processEOF`):
+    `URL /a⏎(⏎  INCLUDE 1⏎)` is accepted; left open at the end of the root file it is refused -/
+example : scanProjectB [.Enum] [(0, .file [.dir { kind := .URL, id := 7, explicit := true }, .incl 1, .close]),
+      (1, .file [.dir getA])] 0
+    = .ok ([.node { kind := .URL, id := 7, explicit := true } [.node getA []]], [(7, []), (3, [(0, 1)])]) := by
+  decide +kernel
+example : scanProjectB [.Enum] [(0, .file [.dir { kind := .URL, id := 7, explicit := true }, .incl 1]),
+      (1, .file [.dir getA])] 0 = .error (.ctx .unclosedAtEOF) := by decide +kernel
 
 /-- `dirsOf` -/
 example : (dirsOf [.node urlD [.node getA []], .node tyD []]).map (·.id) = [2, 3, 5] := by decide +kernel
